@@ -25,6 +25,7 @@ from sa.pyfront import Program
 from sa.symex import Interp
 
 RULES = {
+    "R-C15-e": "no library operation leaves an entry with an empty row list (== compares entry counts, so such an index differs from its twin with the same dense content): imported from C07 rule b",
     "R-C15-a": "a subclass of a builtin with rich comparisons that defines __eq__ defines __ne__ as its negation",
     "R-C15-b": "library-side construction paths end by normalising the common value (argument-less shift_common / from_array without common)",
     "R-C15-c": "the common value is selected by an arg-max over counts that include the common value's own count",
@@ -346,6 +347,21 @@ def main(tier):
     rule_b(prog, rep)
     rule_c(prog, rep)
     rule_d(prog, rep)
+    # R-C15-e: == compares the NUMBER of entries, so two indexes with the same dense content are equal only if neither
+    # carries an empty entry: no library operation stores one (R-C07-b of the C07 analysis)
+    import c07
+    sub7 = core.Report("C07", level="other", rules=c07.RULES, tier=tier)
+    ii7 = prog.cls("iindexes", "iindex")
+    st7 = {"sites": 0}
+    for fi7 in [f for n7, f in ii7.methods.items() if n7 not in ("__init__",)] + [prog.func("iindexes", "column_stack")]:
+        c07.analyse_root(prog, fi7, sub7, st7)
+    k7 = 0
+    for o in sub7.obls:
+        if o.rule == "R-C07-b":
+            k7 += 1
+            rep.add("R-C15-e", o.where, "[%s] %s" % (o.rule, o.construct), o.status, o.detail, True,
+                    o.witness if o.status != "VIOLATED" else {"history": "the result carries an entry with no rows: it has the same dense content as its directly built twin but one entry more, so == is False"})
+    rep.floor("R-C15-e", 10, k7)
     return rep.finish()
 
 
